@@ -8,7 +8,7 @@
    "the certificate is in c_trusted / s_client_trusted" (what Verify returns at the configured time, name, roots). *)
 From Coq Require Import List NArith Arith Bool Lia.
 From GmsmVerif Require Import Lib.Outcome HS.HSTerms HS.HSModel HS.HSProofs HS.HSClientFlight HS.HSTlsClientFlight HS.HSServerFlight HS.HSAuth HS.HSAuth2 HS.HSNames HS.HSSystem HS.HSSessions
-     HS.HSMsgParsers HS.HSMsgMarshal HS.HSMsgMarshalProofs Gen.HSSigTables HS.HSSigAlg HS.HSSigAlgProofs Gen.HSTables HS.HSFlightTie HS.HSSuites.
+     HS.HSMsgParsers HS.HSMsgMarshal HS.HSMsgMarshalProofs Gen.HSSigTables HS.HSSigAlg HS.HSSigAlgProofs Gen.HSTables HS.HSFlightTie HS.HSSuites HS.HSServerAuth.
 Import ListNotations.
 Local Open Scope N_scope.
 
@@ -34,13 +34,7 @@ Print Assumptions C08_client_complete_requires.
      whenever a certificate was presented: a CertificateVerify whose signature verifies under the leaf's key over
      Hash(THIS transcript up to the ClientKeyExchange);
    and a Finished equal to PRF(master, "client finished", Hash(transcript)). *)
-(* NOT PROVED (server-side authentication in the attacker model): no theorem composes server_requirements with
-   C08_attacker_cannot_sign into "a server with ClientAuth >= RequireAndVerifyClientCert that completes has an honest client
-   session with the same transcript".  What is proved for the server side is the requirement (the CertificateVerify verifies
-   under the leaf's key over THIS transcript, the leaf chains to ClientCAs) plus the unforgeability lemma (such a signature
-   occurs in a message an honest holder of that key sent); the link "that honest signer is a client session with this
-   transcript" would need an invariant on client signatures in HSSessions and is left open - the AC attack scripts
-   (cv_key2, cv_replay, cv_early, chain_key2, ...) cover it differentially only. *)
+(* (The server side in the attacker model - a completed server has an honest client partner - is section 13.) *)
 Theorem C08_server_complete_requires : forall cfg ins st',
   s_tickets cfg = false -> server_run cfg ins = RComplete st' -> server_requirements cfg ins st'.
 Proof. exact server_complete_requires. Qed.
@@ -390,6 +384,60 @@ Theorem C08_completed_session_secrecy : forall AK own s cfg ins st_c,
 Proof. exact completed_session_secrecy. Qed.
 Print Assumptions C08_completed_session_secrecy.
 
+(* 13. Server-side authentication in the multi-session system of 8.  Invariant (HSServerAuth.cv_inv): the only place an
+   honest party signs a hash is the GMSSL client's CertificateVerify, over its own transcript up to its ClientKeyExchange;
+   so every such signature the attacker can get at, under a key it does not hold, has an honest client signer.
+   A server of any mode and policy that has COMPLETED with a client certificate whose key is not the attacker's has a
+   partner: a client session that holds that certificate and key and that, when it answered the ServerHelloDone, had the
+   server's view of the whole handshake so far - its transcript up to and including its ClientKeyExchange is the beginning
+   of the server's final transcript, followed there by the CertificateVerify.  (A replayed CertificateVerify of another
+   session, a certificate of someone else with one's own signature, a modified key exchange: the server does not complete.) *)
+Theorem C08_server_authentication_sessions : forall AK own s scfg ins st_s,
+  reach AK own s -> In (PServer scfg ins) (parties s) -> server_run scfg ins = RComplete st_s ->
+  ss_peer st_s <> [] -> AK (cert_key (nth_cert 0 (ss_peer st_s))) = false ->
+  exists ccfg ins_c pre post st_c pms ckxm,
+    In (PClient ccfg ins_c) (parties s) /\ ins_c = pre ++ IHs MServerHelloDone :: post /\
+    client_run ccfg pre = RWaiting st_c /\
+    (exists c, c_cert ccfg = Some (c, cert_key (nth_cert 0 (ss_peer st_s)))) /\
+    client_ckx ccfg (cs_set_warn st_c 0) = Ok (pms, ckxm) /\
+    exists alg sig rest,
+      ss_tr st_s = sf_tr1 ccfg (cs_cert_req st_c) (cs_tr st_c) ckxm ++ enc_hmsg (MCertificateVerify alg sig) :: rest.
+Proof. exact server_authentication_sessions. Qed.
+Print Assumptions C08_server_authentication_sessions.
+
+(* with ClientAuth >= VerifyClientCertIfGiven the premise on the key follows from certification: the keys named in the
+   certificates the server's ClientCAs check accepts are not attacker keys.  RequireAndVerifyClientCert (4): every
+   completed server has a certificate, hence a partner. *)
+Theorem C08_server_authentication_verified_policies : forall AK own s scfg ins st_s,
+  reach AK own s -> In (PServer scfg ins) (parties s) -> server_run scfg ins = RComplete st_s ->
+  3 <= s_auth scfg ->
+  (forall c, tmem c (s_client_trusted scfg) = true -> AK (cert_key c) = false) ->
+  (s_auth scfg = 4 -> ss_peer st_s <> []) /\
+  (ss_peer st_s <> [] ->
+   exists ccfg ins_c pre post st_c pms ckxm,
+     In (PClient ccfg ins_c) (parties s) /\ ins_c = pre ++ IHs MServerHelloDone :: post /\
+     client_run ccfg pre = RWaiting st_c /\
+     (exists c, c_cert ccfg = Some (c, cert_key (nth_cert 0 (ss_peer st_s)))) /\
+     client_ckx ccfg (cs_set_warn st_c 0) = Ok (pms, ckxm) /\
+     exists alg sig rest,
+       ss_tr st_s = sf_tr1 ccfg (cs_cert_req st_c) (cs_tr st_c) ckxm ++ enc_hmsg (MCertificateVerify alg sig) :: rest).
+Proof.
+  intros AK own s scfg ins st_s Hr Hin Hc Ha Hca.
+  destruct (reach_inv AK own s Hr) as [Hok _ _ _].
+  assert (Hpk : party_ok own (PServer scfg ins)) by (rewrite Forall_forall in Hok; apply Hok; exact Hin).
+  destruct Hpk as [Htk _].
+  destruct (server_complete_requires scfg ins st_s Htk Hc)
+    as [ch [st1 [certs [peer [len_ok [ct [pms [master [alg [sig [vd [rest [Hstep [El Hreq]]]]]]]]]]]]]].
+  cbn zeta in Hreq. destruct Hreq as [_ [H1 [H24 [H34 [_ [_ [_ [_ [Epeer _]]]]]]]]].
+  assert (Hp : processCertsFromClient scfg certs = Some peer) by (apply H1; lia).
+  destruct (processCerts_some scfg certs peer Hp) as [Ep _]. rewrite Ep in Epeer.
+  split.
+  - intros E4. rewrite Epeer. apply H24. right. exact E4.
+  - intros Hne. apply (server_authentication_sessions AK own s scfg ins st_s Hr Hin Hc Hne).
+    apply Hca. rewrite Epeer in Hne |- *. apply H34; assumption.
+Qed.
+Print Assumptions C08_server_authentication_verified_policies.
+
 (* ---- non-vacuity ----------------------------------------------------------------------------------------- *)
 Definition ex_sig := TCert 1 KIND_SM2 KU_SIGN 101.
 Definition ex_enc := TCert 2 KIND_SM2 KU_ENC 102.
@@ -628,3 +676,38 @@ Example C08_ecdhe_path :
   (match pair_run (mkCC true 771 [57361; 57425] true [ex_sig; ex_enc] None false None 11 12 13 14) (ex_server 0)
    with ((_, PFailed), (_, PFailed)) => true | _ => false end) = true.
 Proof. split; [eexists; vm_compute; split; reflexivity|]. vm_compute. split; reflexivity. Qed.
+
+(* the hypotheses of 13 are met: a reachable state in which a server with RequireAndVerifyClientCert has completed with the
+   certificate of an honest client (key 103, not the attacker's 999) *)
+Definition y_auth := TCert 3 KIND_SM2 KU_SIGN 103.
+Definition y_client : cconfig := mkCC true 771 [57363] true [x_sig; x_enc] (Some (y_auth, 103)) false None 11 12 13 14.
+Definition y_server : sconfig := mkSC GMOnly None false 4 [y_auth] [(x_sig, 101); (x_enc, 102)] None false 200 false 21 22 23.
+Definition y_c0 := client_init y_client.
+Definition y_s1 := fst (feed (server_step y_server) server_init PRunning (map to_input (cs_out y_c0))).
+Definition y_c1 := fst (feed (client_step y_client) (cs_clear_out y_c0) PRunning (map to_input (ss_out y_s1))).
+Definition y_f0 := Eval vm_compute in map to_input (cs_out y_c0).
+Definition y_f1 := Eval vm_compute in map to_input (ss_out y_s1).
+Definition y_f2 := Eval vm_compute in map to_input (cs_out y_c1).
+
+Example server_authentication_example :
+  exists s ins st, reach xAK xown s /\ In (PServer y_server ins) (parties s) /\ server_run y_server ins = RComplete st /\
+                   ss_peer st = [y_auth] /\ xAK (cert_key (nth_cert 0 (ss_peer st))) = false /\ s_auth y_server = 4.
+Proof.
+  assert (R : reach xAK xown (mkSys [] [])) by constructor.
+  eassert (R1 : reach xAK xown _).
+  { eapply R_step; [exact R|]. apply (SS_spawn_client xAK xown _ y_client); [reflexivity|reflexivity|reflexivity|reflexivity]. }
+  clear R. norm R1.
+  eassert (R : reach xAK xown _).
+  { eapply R_step; [exact R1|]. apply (SS_spawn_server xAK xown _ y_server); [reflexivity|].
+    split; [repeat constructor|exact I]. }
+  clear R1. norm R.
+  to_server R 1%nat (xi y_f0 0).
+  (* ServerHello, Certificate, ServerKeyExchange, CertificateRequest, ServerHelloDone -> client *)
+  to_client R 0%nat (xi y_f1 0). to_client R 0%nat (xi y_f1 1). to_client R 0%nat (xi y_f1 2). to_client R 0%nat (xi y_f1 3).
+  to_client R 0%nat (xi y_f1 4).
+  (* Certificate, ClientKeyExchange, CertificateVerify, ChangeCipherSpec, Finished -> server *)
+  to_server R 1%nat (xi y_f2 0). to_server R 1%nat (xi y_f2 1). to_server R 1%nat (xi y_f2 2). to_server R 1%nat (xi y_f2 3).
+  to_server R 1%nat (xi y_f2 4).
+  eexists. eexists. eexists. split; [exact R|]. split; [cbn; right; left; reflexivity|].
+  split; [vm_compute; reflexivity|]. vm_compute. repeat split; reflexivity.
+Qed.
